@@ -14,6 +14,7 @@ import (
 
 	"verif/explore"
 	"verif/h/lin"
+	"verif/par"
 	"verif/report"
 	"verif/vrt"
 )
@@ -27,6 +28,16 @@ func init() {
 			s, _ := strconv.Atoi(p)
 			for _, f := range counterState(uint16(s)) {
 				x.Failf(f.Clause, f.Sig, "%s", f.Msg)
+			}
+		}
+	})
+	explore.Register("C18.window", func(p string) explore.Harness {
+		return func(x *explore.X) {
+			s, _ := strconv.Atoi(p)
+			for _, f := range []*explore.ClauseFail{bruteForce(uint16(s)), bruteForceSession(uint16(s))} {
+				if f != nil {
+					x.Failf(f.Clause, f.Sig, "%s", f.Msg)
+				}
 			}
 		}
 	})
@@ -116,6 +127,34 @@ func bruteForce(s uint16) *explore.ClauseFail {
 		id := uint16(c.NextID())
 		if id == 0 || seen[id] {
 			return &explore.ClauseFail{Clause: "id-distinct-65535", Sig: fmt.Sprintf("counter-window:%d", s), Msg: fmt.Sprintf("starting at %d, allocation #%d returned %d (zero or repeated within 65535 allocations)", s, i+1, id)}
+		}
+		seen[id] = true
+	}
+	return nil
+}
+
+// bruteForceSession: the same through MemorySession.NextID with packets stored in both directions - what the stores hold
+// must not influence the id sequence (packet ids merely label packets).
+func bruteForceSession(s uint16) *explore.ClauseFail {
+	ms := session.NewMemorySession()
+	ms.Counter = session.NewIDCounterWithNext(packet.ID(s))
+	for _, id := range []uint16{s, s + 1, s + 2, 1, 2, 65535} {
+		if id == 0 {
+			continue
+		}
+		p := packet.NewPublish()
+		p.ID = packet.ID(id)
+		p.Message = packet.Message{Topic: "t", QOS: 1}
+		ms.SavePacket(session.Outgoing, p)
+		q := packet.NewPubrel()
+		q.ID = packet.ID(id)
+		ms.SavePacket(session.Incoming, q)
+	}
+	var seen [65536]bool
+	for i := 0; i < 65535; i++ {
+		id := uint16(ms.NextID())
+		if id == 0 || seen[id] {
+			return &explore.ClauseFail{Clause: "id-distinct-65535", Sig: fmt.Sprintf("session-window:%d", s), Msg: fmt.Sprintf("MemorySession with stored packets, counter starting at %d: allocation #%d returned %d (zero or repeated within 65535 allocations)", s, i+1, id)}
 		}
 		seen[id] = true
 	}
@@ -536,16 +575,18 @@ func run(r *report.Report) {
 			complete = false
 			break
 		}
-		if f := bruteForce(uint16(s)); f != nil {
-			nv++
-			if len(viol) < 8 {
-				viol = append(viol, explore.Violation{Harness: "C18.counter-one", Params: fmt.Sprint(s), Clause: f.Clause, Sig: f.Sig, Msg: f.Msg})
+		for _, f := range []*explore.ClauseFail{bruteForce(uint16(s)), bruteForceSession(uint16(s))} {
+			if f != nil {
+				nv++
+				if len(viol) < 8 {
+					viol = append(viol, explore.Violation{Harness: "C18.window", Params: fmt.Sprint(s), Clause: f.Clause, Sig: f.Sig, Msg: f.Msg})
+				}
 			}
 		}
 		done++
 	}
 	r.AddSweep(report.Part{Name: "counter-window", Mode: "sweep", Bound: fmt.Sprintf("%d start values x 65535 consecutive allocations", done), Evaluations: int64(done) * 65535, Nontrivial: int64(done),
-		Rule: "the statement itself by brute force: from each start value, 65535 consecutive NextID results are non-zero and pairwise distinct (bitmap); non-trivial = start values", Exhaustive: complete, Wall: r.Seconds() - t0, Violations: nv}, viol)
+		Rule: "the statement itself by brute force: from each start value, 65535 consecutive NextID results are non-zero and pairwise distinct (bitmap) - on a bare IDCounter and through a MemorySession that holds packets in both stores; non-trivial = start values", Exhaustive: complete, Wall: r.Seconds() - t0, Violations: nv}, viol)
 	// 3. store closure
 	c := storeClosure()
 	cr := c.Run(r.Deadline())
@@ -556,6 +597,18 @@ func run(r *report.Report) {
 	for _, s := range cr.Samples {
 		r.Sample(map[string]string{"part": "store-closure", "operations": s})
 	}
+	// 3a. every operation history up to a fixed length without merging states (state a particular history leaves behind
+	// and the state key cannot see)
+	sd := 3
+	if r.Tier == "thorough" {
+		sd = 4
+	}
+	sr := c.Sequences(sd, r.Deadline(), func(gen func(emit func([]int)), work func([]int) []explore.ClauseFail, collect func([]int, []explore.ClauseFail), deadline int64) bool {
+		return par.Run(gen, work, collect, deadline)
+	})
+	r.AddSweep(report.Part{Name: "store-histories", Mode: "sweep", Bound: fmt.Sprintf("all operation sequences of length 1..%d over %d operations (no state merging)", sd, len(c.Ops)),
+		Evaluations: int64(sr.Transitions), Nontrivial: int64(sr.Transitions), Rule: "every sequence on a fresh MemorySession, the comparisons of the closure after the last operation; non-trivial = sequences",
+		Exhaustive: sr.Complete, Wall: sr.Wall, Violations: sr.NViol}, sr.Viol)
 	// 3b. stores built from a packet list (NewPacketStoreWithPackets / NewIDCounterWithNext: how a restored session is assembled)
 	t0 = r.Seconds()
 	viol, nv = nil, 0
